@@ -205,6 +205,17 @@ func (c *CaseC18) Eval(ob *Obs) []Finding {
 			sch.install()
 			defer sch.uninstall()
 			takeParked, next := sch.take, sch.next
+			// goroutines that have just come out of a communication (R14) go on before anything else happens
+			runWoken := func() {
+				for i := 0; i < 10000; i++ {
+					g := sch.takeWoken()
+					if g == nil {
+						return
+					}
+					close(g.ch)
+					synctest.Wait()
+				}
+			}
 			p := parser.NewParser(parser.Config{CommentChar: uint8(c.Comment)})
 			var st *verifsim.State
 			defer func() {
@@ -263,6 +274,8 @@ func (c *CaseC18) Eval(ob *Obs) []Finding {
 					decisions = append(decisions, "recv:"+kind)
 					if n := len(c.ConsStall); n > 0 {
 						if d := c.ConsStall[(len(so.history)-1)%n]; d > 0 && kind != "done" {
+							synctest.Wait()
+							runWoken()                   // (the producer is not held up by the consumer's work)
 							time.Sleep(time.Duration(d)) // the consumer works on the event
 						}
 					}
@@ -311,6 +324,7 @@ func (c *CaseC18) Eval(ob *Obs) []Finding {
 				spun := false // the goroutine released last called runtime.Gosched: the consumer, if it can receive, goes first
 				for steps := 0; !finished() && idle < idleBudget && steps < 200000; steps++ {
 					synctest.Wait()
+					runWoken()
 					recvFirst, order, pick, consumerFirst := next()%2 == 0, orders[next()%6], next(), next()%2 == 1
 					if spun {
 						recvFirst, spun = true, false
